@@ -22,13 +22,16 @@ class Prover:
             info.update(extra_info)
         # vacuity twin: the assumptions (incl. the path condition of reaching the function's exit) are satisfiable
         t0 = now()
-        st, model, _ = decide(ex.assumes, z3.BoolVal(True), self.cap)
+        eg = list(getattr(ex, "exit_guards", []))
+        st, model, _ = decide(ex.assumes + eg, z3.BoolVal(True), self.cap)
         if st != "sat":
             R.add("%s/vacuity-witness" % oidp, "inconclusive", detail="assumptions are %s: obligation would be vacuous" % st,
                   solver_s=now() - t0, queries=1, **info)
             return {}
         R.extra["vacuity_witnesses_sat"] = R.extra.get("vacuity_witnesses_sat", 0) + 1
-        items = [(k, z3.Not(f)) for k, f in goals.items()]
+        # goals speak about the returned state: they are asked under the exit path condition;
+        # panic / unwinding edges are asked WITHOUT it (assuming the exit is reached would assume them away)
+        items = [(k, z3.And(*(eg + [z3.Not(f)]))) for k, f in goals.items()]
         pan = list(ex.obligs)
         if pan:
             items.append(("panic-free", z3.Or(*[o.formula for o in pan])))
